@@ -156,6 +156,38 @@ func c13Catalogue() []c13Call {
 		add("UrlForFn", x.name, func() error { return valid.UrlForFn(x.v, "noop", noop) })
 		add("GetDumpStructStr", x.name, func() error { _ = valid.GetDumpStructStr(x.v); return nil })
 	}
+	// user functions that write whatever they like into the error buffer: nothing, one byte, text
+	// without the clause separator, only the separator, several clauses, NUL / invalid UTF-8
+	writes := []string{"", "x", ";", " ", "; ", "ab", "no separator at the end", valid.ErrEndFlag, "a" + valid.ErrEndFlag, "a" + valid.ErrEndFlag + "b", "\x00", "\xff", "explain:", "说明:", strings.Repeat("z", 5000)}
+	for wi, w := range writes {
+		w := w
+		fn := func(errBuf *strings.Builder, validName, objName, fieldName string, tv reflect.Value) { errBuf.WriteString(w) }
+		d := fmt.Sprintf("user function writes #%d %q", wi, trunc(w, 30))
+		add("VarForFn", d, func() error { return valid.VarForFn("v", fn) })
+		add("VarForFn-int", d, func() error { return valid.VarForFn(7, fn) })
+		add("NewVVar.SetValidFn", d, func() error { return valid.NewVVar().SetRules("w_fn", "to=1~3").SetValidFn("w_fn", fn).Valid("v") })
+		add("MapFn", d, func() error { return valid.MapFn(map[string]string{"a": "1"}, valid.RM{"a": "w_fn"}, valid.Name2FnMap{"w_fn": fn}) })
+		add("MapFn+builtin", d, func() error {
+			return valid.MapFn(map[string]string{"a": "1", "b": ""}, valid.RM{"a": "w_fn,to=3~4", "b": "required"}, valid.Name2FnMap{"w_fn": fn})
+		})
+		add("MapFn-slice", d, func() error {
+			return valid.MapFn([]map[string]int{{"a": 1}, {"a": 2}}, valid.RM{"a": "w_fn"}, valid.Name2FnMap{"w_fn": fn})
+		})
+		add("NewVMap.SetValidFn", d, func() error {
+			return valid.NewVMap().SetRule(valid.RM{"a": "w_fn"}).SetValidFn("w_fn", fn).Valid(map[string]interface{}{"a": 1})
+		})
+		add("UrlForFn", d, func() error { return valid.UrlForFn("http://x?a=1", "w_fn", fn) })
+		add("NewVUrl.SetValidFn", d, func() error {
+			return valid.NewVUrl().SetRule(valid.RM{"a": "w_fn"}).SetValidFn("w_fn", fn).Valid("http://x?a=1&b=2")
+		})
+		add("StructForFns", d, func() error {
+			return valid.StructForFns(&c13Node{A: "x"}, valid.RM{"A": "w_fn"}, valid.Name2FnMap{"w_fn": fn})
+		})
+		add("ValidStructForMyValidFn", d, func() error { return valid.ValidStructForMyValidFn(&c13Node{A: "x"}, "w_fn", fn) })
+		add("StructForFns-slice", d, func() error {
+			return valid.StructForFns([]*c13Node{{A: "x"}, {A: "y"}}, valid.RM{"A": "w_fn,to=5~6"}, valid.Name2FnMap{"w_fn": fn})
+		})
+	}
 	// map / url specific shapes
 	maps := []vals{
 		{"map[string]string", map[string]string{"a": "", "b": "x"}}, {"map[string]interface{} nil elem", map[string]interface{}{"a": nil, "b": 1, "A": one}}, {"[]map[string]string{nil}", []map[string]string{nil, {"a": "1"}}},
@@ -171,7 +203,10 @@ func c13Catalogue() []c13Call {
 			add("Map", fmt.Sprintf("%s rules#%d %v", x.name, i, r), func() error { return valid.Map(x.v, r) })
 		}
 	}
-	urls := []interface{}{"", "?", "http://x?", "a=1", "http://x?a=1&&b=2", "http://x?=", "http://x?=&=", "http://x?a", "http://x?a=%", "http://x?a=%zz", "http%3A%2F%2Fx%3Fa%3D%25", "http://x?a=1?b=2", "http://x?a=1#a=2", "http://x?a=1;b=2", "http://x?a==", "http://x?a=1=2", &str, nilStr, "?a=\x00&b=\xff", strings.Repeat("a=1&", 5000)}
+	urls := []interface{}{"", "?", "http://x?", "a=1", "http://x?a=1&&b=2", "http://x?=", "http://x?=&=", "http://x?a", "http://x?a=%", "http://x?a=%zz", "http%3A%2F%2Fx%3Fa%3D%25", "http://x?a=1?b=2", "http://x?a=1#a=2", "http://x?a=1;b=2", "http://x?a==", "http://x?a=1=2", &str, nilStr, "?a=\x00&b=\xff", strings.Repeat("a=1&", 5000),
+		// fragments and separators in every relative position (hash routing: '#' before '?')
+		"http://x/#/user?a=1", "http://x/faq#why?a=1&b=2", "#?", "#", "?#", "#?a=1", "http://x#", "http://x?#", "http://x?a=1#", "http://x#?", "http%3A%2F%2Fx%2F%23%2Fuser%3Fa%3D1", "%23%3Fa%3D1", "a#b?c=d?e#f",
+		"?a=1&", "&", "&&", "=", "?&=", "??", "http://x??a=1", "http://x?a=1&?b=2", "%3F", "%3Fa%3D1", "%", "%3", "?%", "?a=%3", "?%3D=%26", "http://x?a=b=c&=d&e"}
 	for _, u := range urls {
 		for i, r := range mapRules {
 			u, r := u, r
@@ -228,7 +263,7 @@ func c13Values() []reflect.Value {
 func init() {
 	core.Register(&core.Prop{
 		ID: "C13",
-		Rule: "(a) directed catalogue, complete: 41 nil / wrong-kind / nested-nil shapes x 23 entry-point variants, map and URL shapes x 7 rule sets; (b) grammar-aware rule mutation: every rule key x 80 argument mutations (missing, empty, foreign, ~ count 0..3, non-numeric / overflowing bounds, brackets missing / reversed / nested, quotes unbalanced / escaped / empty, 0..6 datetime separators, layout-like separators, invalid regex, 70 KB arguments, NUL and invalid UTF-8) x 33 values of every kind through Var, Struct(RM), Map and Url; " +
+		Rule: "(a) directed catalogue, complete: 41 nil / wrong-kind / nested-nil shapes x 23 entry-point variants, map and URL shapes (incl. '#' and '?' in every relative position) x 7 rule sets, user functions that write arbitrary bytes (nothing, one byte, no separator, only the separator, NUL) through every entry point that takes functions; (b) grammar-aware rule mutation: every rule key x 80 argument mutations (missing, empty, foreign, ~ count 0..3, non-numeric / overflowing bounds, brackets missing / reversed / nested, quotes unbalanced / escaped / empty, 0..6 datetime separators, layout-like separators, invalid regex, 70 KB arguments, NUL and invalid UTF-8) x 33 values of every kind through Var, Struct(RM), Map and Url; " +
 			"(c) random bytes as rule text x random run-time synthesised struct values with nil at every level through Struct / StructForFn / NestedStructForRule, plus ValidNamesSplit, ParseValidNameKV, GenValidKV, GetOnlyExplainErr on random bytes; (d) thorough tier only: four native Go fuzz targets (coverage-guided, iteration-bounded) over Var, Struct/NestedStructForRule, Map/Url and the text helpers. Every call is wrapped in recover(); process-fatal errors are attributed through the journal. distinct = distinct (entry, input description); non-trivial = call reached the library with a non-default input",
 		Shards: func(t core.Tier) int { return 16 },
 		Run:    runC13,
